@@ -64,7 +64,7 @@ func VerifC10HandlerError() {
 	// error hook: arbitrary behaviour within its documented interface
 	hookMode := verif.Choice("hook", 3) // 0 none, 1 returns nil, 2 returns a message
 	setsHeader, setsStatus, writes := false, false, false
-	code := []int{401, 404, 409, 503}[verif.Choice("hook.status", 4)]
+	code := []int{400, 404, 409, 503}[verif.Choice("hook.status", 4)]
 	var hook ErrorHandler
 	var hookSaw error
 	if hookMode != 0 {
@@ -182,13 +182,14 @@ func VerifC10HandlerError() {
 					verif.Assert("C10/client/400-is-validation-error-with-same-violations", okV && len(cv.Violations) == 0)
 				}
 			case hookMode == 2:
-				if w.Status != 400 {
-					verif.Assert("C10/client/error-carries-message", errors.As(cerr, &ce) && ce.Message == "from-hook")
-				}
+				verif.Assert("C10/client/error-carries-message", errors.As(cerr, &ce) && ce.Message == "from-hook" && !errors.As(cerr, &cv))
+			case isCustom && clientCT == "application/json" && (rt != "" || rid != ""):
+				// (an all-default custom error serialises as {} and cannot be told apart)
+				// a custom error message is neither an Error nor a ValidationError: the client
+				// must fall back to an error carrying status and body
+				verif.Assert("C10/client/custom-error-is-not-mistyped", !errors.As(cerr, &ce) && !errors.As(cerr, &cv))
 			case !isValidation && !isCustom && !(src == 1 && msg == "") && !(src == 0 && msg == ""):
-				if w.Status != 400 {
-					verif.Assert("C10/client/error-carries-message", errors.As(cerr, &ce) && ce.Message != "")
-				}
+				verif.Assert("C10/client/error-carries-message", errors.As(cerr, &ce) && ce.Message != "" && !errors.As(cerr, &cv))
 			}
 			verif.Reach("C10/client/mapped")
 		}
